@@ -62,6 +62,8 @@ func f(db *DB) { if pred(db) { site() } }`, "site", []string{"N:db.Error", "F:db
 func f(db *DB) { if skip(db) { return }; site() }`, "site", []string{"N:db.Error", "F:db.DryRun"}, nil},
 	{"predicate-fact-killed", `func pred(d *DB) bool { return d.Error == nil }
 func f(db *DB) { if !pred(db) { return }; kill(db); site() }`, "site", nil, []string{"N:db.Error"}},
+	{"if-init-snapshot-of-path", `func f(db *DB) { if e := db.Error; e != nil { return }; site() }`, "site", []string{"N:db.Error"}, nil},
+	{"if-init-snapshot-killed", `func f(db *DB) { if e := db.Error; e != nil { return }; kill(db); site() }`, "site", nil, []string{"N:db.Error"}},
 	{"call-kills-config", `func f(db *DB) { if db.Error != nil { return }; kill(db); site() }`, "site", nil, []string{"N:db.Error"}},
 }
 
